@@ -210,6 +210,7 @@ func (r *rt) RegisterOnElection(blockHeight primitives.BlockHeight, view primiti
 	r.regMu.Lock()
 	r.regH, r.regV, r.regCb = uint64(blockHeight), uint64(view), cb
 	r.regMu.Unlock()
+	r.log("timer.armed", obj{"h": absNum(uint64(blockHeight)), "v": absNum(uint64(view))})
 }
 func (r *rt) ElectionChannel() chan *interfaces.ElectionTrigger { return r.elecCh }
 func (r *rt) CalcTimeout(view primitives.View) time.Duration    { return time.Millisecond }
@@ -217,6 +218,7 @@ func (r *rt) Stop() {
 	r.regMu.Lock()
 	r.regCb = nil
 	r.regMu.Unlock()
+	r.log("timer.stopped", nil)
 }
 
 func (r *rt) hvAbs() (int, int) {
@@ -451,6 +453,15 @@ func (r *rt) blockedSnapshot() []obj {
 }
 
 // moduleGoroutines: goroutines whose stack has a frame of the library (not of this harness)
+// goid: id of the calling goroutine (from the first line of its stack trace)
+func goid() int64 {
+	var buf [64]byte
+	n := runtime.Stack(buf[:], false)
+	var id int64
+	fmt.Sscanf(string(buf[:n]), "goroutine %d ", &id)
+	return id
+}
+
 func moduleGoroutines() int { n, _ := moduleGoroutineStacks(); return n }
 
 func moduleGoroutineStacks() (int, []string) {
@@ -542,9 +553,42 @@ func runRuntime(p rtParams, runId int) []rtEvent {
 		cfg.OverrideElectionTrigger = r
 	}
 	r.main = leanhelix.NewLeanHelix(cfg, r.onCommit, r.onNewRound)
-	r.main.VerifSetHooks(&leanhelix.VerifHooks{MainEvent: func(ev string, h, v uint64) { r.log("main."+ev, obj{"h": absNum(h), "v": absNum(v)}) }})
-	leanhelix.VerifSetDefaultWorkerHooks(&leanhelix.VerifHooks{WorkerEvent: func(ev string) { r.log("worker."+ev, nil) }})
+	// the goroutines of the two loops identify themselves at their first event; registry operations are attributed by goroutine
+	var mainG, workerG int64
+	r.main.VerifSetHooks(&leanhelix.VerifHooks{MainEvent: func(ev string, h, v uint64) {
+		if ev == "run.start" {
+			atomic.StoreInt64(&mainG, goid())
+		}
+		r.log("main."+ev, obj{"h": absNum(h), "v": absNum(v)})
+	}})
+	leanhelix.VerifSetDefaultWorkerHooks(&leanhelix.VerifHooks{
+		WorkerEvent: func(ev string) {
+			if ev == "run.start" {
+				atomic.StoreInt64(&workerG, goid())
+			}
+			r.log("worker."+ev, nil)
+		},
+		WorkerStep: func(ev string, h, v uint64) { // on the worker goroutine, the only writer of State: what it reads is exact
+			ch, cv := r.hvAbs()
+			r.log("worker."+ev, obj{"h": absNum(h), "v": absNum(v), "curh": ch, "curv": cv})
+		},
+		WorkerIdle: func() { r.log("worker.idle", nil) },
+	})
 	defer leanhelix.VerifSetDefaultWorkerHooks(nil)
+	registry := r.main.State().Contexts
+	state.VerifCtxHook = func(w *state.ViewContexts, op string, h, v uint64, res string) {
+		if w != registry {
+			return
+		}
+		g, id := "other", goid()
+		if id == atomic.LoadInt64(&mainG) {
+			g = "main"
+		} else if id == atomic.LoadInt64(&workerG) {
+			g = "worker"
+		}
+		r.log("ctx."+op, obj{"h": absNum(h), "v": absNum(v), "res": res, "g": g})
+	}
+	defer func() { state.VerifCtxHook = nil }()
 	base := moduleGoroutines()
 	ctx, cancel := context.WithCancel(context.Background())
 	r.log("init", obj{"garbage": p.garbage, "run": runId, "seed": p.seed, "cancelat": p.cancelAt, "blockprob": fmt.Sprint(r.blockProb), "ctxonly": r.ctxOnly, "realtimer": p.realTimer, "base": base})
